@@ -6,6 +6,9 @@ ENC = "src/allmydata/immutable/encode.py"
 PUB = "src/allmydata/mutable/publish.py"
 RET = "src/allmydata/mutable/retrieve.py"
 
+DECODE_TAIL = ("        return await defer_to_thread(\n            self.decoder.decode,\n            some_shares,\n"
+               "            [int(s) for s in their_shareids]\n        )\n")
+
 MUTANTS = [
     # ---- C36.1
     M("encoder-ctor-swapped", CODEC, "        self.encoder = zfec.Encoder(required_shares, max_shares)",
@@ -36,6 +39,9 @@ MUTANTS = [
       "        precondition(len(some_shares) == self.required_shares,\n                     len(some_shares), self.required_shares)\n", "", "C36.3"),
     M("decode-k-precondition-weakened", CODEC,
       "        precondition(len(some_shares) == self.required_shares,", "        precondition(len(some_shares) >= self.required_shares,", "C36.3"),
+    M("decode-result-kept-on-instance", CODEC, DECODE_TAIL,
+      "        self._segment = await defer_to_thread(self.decoder.decode, some_shares, [int(s) for s in their_shareids])\n"
+      "        return self._segment\n", "C36.3"),
     M("benign-decode-hoisted-ids", CODEC,
       "        return await defer_to_thread(\n            self.decoder.decode,\n            some_shares,\n            [int(s) for s in their_shareids]\n        )",
       "        ids = [int(s) for s in their_shareids]\n        return await defer_to_thread(self.decoder.decode, some_shares, ids)", None),
@@ -51,6 +57,11 @@ MUTANTS = [
       "            desired_share_ids = list(range(self.max_shares))", "            desired_share_ids = list(range(self.required_shares))", "C36.4"),
     M("encode-returns-other-ids", CODEC,
       "        return (shares, desired_share_ids)", "        return (shares, list(range(len(shares))))", "C36.4"),
+    M("encode-returns-ids-kept-on-instance", CODEC,
+      "        shares = await defer_to_thread(self.encoder.encode, inshares, desired_share_ids)\n        return (shares, desired_share_ids)",
+      "        self._last_ids = desired_share_ids\n"
+      "        shares = await defer_to_thread(self.encoder.encode, inshares, desired_share_ids)\n        return (shares, self._last_ids)",
+      "C36.4"),
     M("benign-encode-rename-loop-var", CODEC,
       "        for inshare in inshares:\n            assert len(inshare) == self.share_size, (len(inshare), self.share_size, self.data_size, self.required_shares)\n",
       "        for piece in inshares:\n            assert self.share_size == len(piece), (len(piece), self.share_size)\n", None),
@@ -71,6 +82,69 @@ MUTANTS = [
     M("benign-mut-truncate-reordered", RET,
       "        shareids = shareids[:self._required_shares]\n        shares = shares[:self._required_shares]\n",
       "        shares = shares[:self._required_shares]\n        shareids = shareids[:self._required_shares]\n", None),
+    # ---- C36.6  (the codec object is shared and the zfec work is deferred: per-call data stays in the call's frame)
+    M("decode-inputs-stashed-on-instance", CODEC, DECODE_TAIL,
+      "        self._shares = some_shares\n        self._shareids = [int(s) for s in their_shareids]\n"
+      "        return await defer_to_thread(self._decode_in_thread)\n\n"
+      "    def _decode_in_thread(self):\n        return self.decoder.decode(self._shares, self._shareids)\n", "C36.6"),
+    M("decode-closure-reads-instance", CODEC, DECODE_TAIL,
+      "        self._pending = (some_shares, [int(s) for s in their_shareids])\n"
+      "        def job():\n            blocks, ids = self._pending\n            return self.decoder.decode(blocks, ids)\n"
+      "        return await defer_to_thread(job)\n", "C36.6"),
+    M("decode-inputs-queued-on-instance", CODEC,
+      "        self.decoder = zfec.Decoder(self.required_shares, self.max_shares)\n\n    def get_needed_shares(self):\n"
+      "        return self.required_shares\n",
+      "        self.decoder = zfec.Decoder(self.required_shares, self.max_shares)\n        self._jobs = []\n\n"
+      "    def get_needed_shares(self):\n        return self.required_shares\n\n"
+      "    def _next_job(self):\n        blocks, ids = self._jobs.pop()\n        return self.decoder.decode(blocks, ids)\n",
+      "C36.6", edits=[(CODEC, DECODE_TAIL,
+                       "        self._jobs.append((some_shares, [int(s) for s in their_shareids]))\n"
+                       "        return await defer_to_thread(self._next_job)\n")]),
+    M("decode-ids-on-instance-after-await", CODEC, DECODE_TAIL,
+      "        self._ids = [int(s) for s in their_shareids]\n        await defer_to_thread(self._check_ids)\n"
+      "        return await defer_to_thread(self.decoder.decode, some_shares, self._ids)\n\n"
+      "    def _check_ids(self):\n        assert all(0 <= i < self.max_shares for i in self._ids)\n", "C36.6"),
+    M("encode-inputs-stashed-on-instance", CODEC,
+      "        shares = await defer_to_thread(self.encoder.encode, inshares, desired_share_ids)\n",
+      "        self._inshares = inshares\n        self._wanted = desired_share_ids\n"
+      "        shares = await defer_to_thread(self._encode_in_thread)\n",
+      "C36.6", edits=[(CODEC, "    def encode_proposal(self, data, desired_share_ids=None):",
+                       "    def _encode_in_thread(self):\n        return self.encoder.encode(self._inshares, self._wanted)\n\n"
+                       "    def encode_proposal(self, data, desired_share_ids=None):")]),
+    M("encode-partial-over-instance-state", CODEC,
+      "        shares = await defer_to_thread(self.encoder.encode, inshares, desired_share_ids)\n",
+      "        setattr(self, '_wanted', desired_share_ids)\n"
+      "        shares = await defer_to_thread(lambda: self.encoder.encode(inshares, self._wanted))\n", "C36.6"),
+    M("decode-inputs-in-module-global", CODEC, DECODE_TAIL,
+      "        global _PENDING\n        _PENDING = (some_shares, [int(s) for s in their_shareids])\n"
+      "        return await defer_to_thread(_decode_pending, self.decoder)\n",
+      "C36.6", edits=[(CODEC, "def parse_params(serializedparams):",
+                       "def _decode_pending(decoder):\n    blocks, ids = _PENDING\n    return decoder.decode(blocks, ids)\n\n"
+                       "def parse_params(serializedparams):")]),
+    M("decode-inputs-on-class-attribute", CODEC, DECODE_TAIL,
+      "        CRSDecoder._current = {'blocks': some_shares, 'ids': [int(s) for s in their_shareids]}\n"
+      "        return await defer_to_thread(lambda: self.decoder.decode(CRSDecoder._current['blocks'], CRSDecoder._current['ids']))\n",
+      "C36.6"),
+    M("benign-decode-module-level-helper", CODEC, DECODE_TAIL,
+      "        return await defer_to_thread(_decode_job, self.decoder, some_shares, [int(s) for s in their_shareids])\n",
+      None, edits=[(CODEC, "def parse_params(serializedparams):",
+                    "def _decode_job(decoder, blocks, ids):\n    return decoder.decode(blocks, ids)\n\n"
+                    "def parse_params(serializedparams):")]),
+    M("benign-decode-helper-with-arguments", CODEC, DECODE_TAIL,
+      "        return await defer_to_thread(self._decode_in_thread, some_shares, [int(s) for s in their_shareids])\n\n"
+      "    def _decode_in_thread(self, blocks, blocknums):\n        return self.decoder.decode(blocks, blocknums)\n", None),
+    M("benign-decode-closure-over-locals", CODEC, DECODE_TAIL,
+      "        ids = [int(s) for s in their_shareids]\n        def job():\n            return self.decoder.decode(some_shares, ids)\n"
+      "        return await defer_to_thread(job)\n", None),
+    M("benign-decode-call-counter-on-instance", CODEC, DECODE_TAIL,
+      "        self._decodes = getattr(self, '_decodes', 0) + 1\n" + DECODE_TAIL, None),
+    M("benign-decode-stash-read-in-same-turn", CODEC, DECODE_TAIL,
+      "        self._last_ids = [int(s) for s in their_shareids]\n"
+      "        return await defer_to_thread(self.decoder.decode, some_shares, self._last_ids)\n", None),
+    M("benign-encode-partial-of-locals", CODEC,
+      "        shares = await defer_to_thread(self.encoder.encode, inshares, desired_share_ids)\n",
+      "        job = partial(self.encoder.encode, inshares, desired_share_ids)\n        shares = await defer_to_thread(job)\n", None,
+      edits=[(CODEC, "import zfec\n", "import zfec\nfrom functools import partial\n")]),
     # ---- vanished anchor
     M("vanish-decode", CODEC, "    async def decode(self, some_shares, their_shareids):", "    async def decodeX(self, some_shares, their_shareids):",
       "ANALYSIS-ERROR"),
